@@ -143,7 +143,13 @@ class ProofStatus:
         return ''
 
 
-def prove(prop_modules):
+def leancheck(modules, timeout=1800):
+    """Thorough tier: re-check the compiled .olean files of the property modules with leanchecker."""
+    rc, out, err = sh(['lake', 'env', 'leanchecker'] + list(modules), cwd=LEAN_DIR, timeout=timeout)
+    return rc == 0, (out + err)[-1500:]
+
+
+def prove(prop_modules, tier='quick'):
     """Regenerate tables, build model + driver + the property's theorem modules, audit axioms."""
     from . import translate
     st = ProofStatus()
@@ -183,6 +189,13 @@ def prove(prop_modules):
                 st.discharged += 1
             else:
                 st.failed.append(f"{n} (axioms: {a})")
+    st.leanchecker = None
+    if tier == 'thorough' and st.props_built:
+        okc, logc = leancheck(prop_modules)
+        st.leanchecker = 'ok' if okc else 'FAILED: ' + logc
+        if not okc:
+            st.failed.append('leanchecker rejected the compiled modules')
+            st.discharged = 0
     return st
 
 
@@ -324,6 +337,7 @@ class Report:
                 'translator': proof.translator,
                 'proof_modules': proof.modules,
                 'not_discharged': proof.failed,
+                'leanchecker': getattr(proof, 'leanchecker', None),
             })
             if not proof.ok:
                 level = 'translation_validation'
